@@ -25,6 +25,21 @@ OPEN_TODS = [(14, 30, 0), (14, 30, 1), (15, 45, 10), (17, 0, 0), (20, 59, 59)]
 SMALL_AMOUNTS = [0.0, 0.01, 0.5, 1.0, 1.5]
 
 
+def _oid(item):
+    """Order id of a queue entry: the order itself, or a record (tuple/list) that carries the order."""
+    if hasattr(item, 'order_id'):
+        return item.order_id
+    if isinstance(item, (tuple, list)):
+        for x in item:
+            if hasattr(x, 'order_id'):
+                return x.order_id
+    return repr(item)
+
+
+def queue_ids(b, pid):
+    return [_oid(o) for o in b.open_orders[pid].queue]
+
+
 def snapshot(b):
     """Deep, comparable picture of everything C15 lists: cash, holdings, pending orders, history, key sets."""
     ports = {}
@@ -32,7 +47,7 @@ def snapshot(b):
         ports[pid] = (
             p.cash,
             copy.deepcopy(p.portfolio_to_dict()),
-            [o.order_id for o in b.open_orders[pid].queue] if pid in b.open_orders else None,
+            queue_ids(b, pid) if pid in b.open_orders else None,
             [(e.dt, e.type, e.description, e.debit, e.credit, e.balance) for e in p.history],
         )
     return (dict(b.cash_balances), ports, sorted(b.portfolios.keys()), sorted(b.open_orders.keys()))
@@ -150,7 +165,7 @@ class Harness(object):
 
         self.master = F(init)
         self.cash, self.pend, self.net, self.last, self.hist = {}, {}, {}, {}, {}
-        self.mag = {'master': abs(F(init))}
+        self.mag = {'#account': abs(F(init))}
         self.txlog = []
         self.submitted = {}      # order id -> outstanding submissions [(pid, asset, qty), ...] (one Order object may be submitted again)
         self.nsub = {}           # order id -> number of submissions
@@ -182,7 +197,7 @@ class Harness(object):
         self.valid_ops += 1
         self.b.subscribe_funds_to_account(a)
         self.master += F(a)
-        self._bump('master', F(a), self.master)
+        self._bump('#account', F(a), self.master)
 
     def op_awd(self, op, before):
         bal = self.b.get_account_cash_balance(self.b.base_currency)
@@ -250,7 +265,7 @@ class Harness(object):
         self.cash[pid] -= F(a)
         if a != 0 or len(self.b.portfolios[pid].history) != nh:
             self.hist[pid].append(('withdrawal', -F(a), self.cash[pid]))
-        self._bump('master', self.master)
+        self._bump('#account', self.master)
         self.flags.add('transfer_out')
         self.pclock[pid] = max(self.pclock[pid], self.b.current_dt)
         if a == bal and a > 0:
@@ -358,7 +373,7 @@ class Harness(object):
             d = diff_snap(_drop_queue(before), _drop_queue(snapshot(self.b)))
             if d:
                 raise Violation('submitting an order changed state: %s' % d)
-            ql = [o.order_id for o in self.b.open_orders[pid].queue]
+            ql = queue_ids(self.b, pid)
             if ql != [oid for oid, _, _ in self.pend[pid]]:
                 raise Violation('pending queue of %s is %s, expected %s' % (pid, ql, [x[0] for x in self.pend[pid]]))
 
@@ -442,7 +457,7 @@ class Harness(object):
                 if new:
                     raise Violation('execution handler filled %s at %s outside exchange hours' % (
                         [(t.asset, t.quantity) for _, t in new], dt))
-                ql = [o.order_id for o in self.b.open_orders[pid].queue]
+                ql = queue_ids(self.b, pid)
                 if ql != [x[0] for x in self.pend[pid]]:
                     raise Violation('queue of %s after closed-hours execution holds %d orders, expected %d' % (
                         pid, len(ql), len(self.pend[pid])))
@@ -517,7 +532,7 @@ class Harness(object):
         for pid in self.pids:
             port = b.portfolios[pid]
             for what, dct, own in (('equity', eq_d, port.total_equity), ('market value', mv_d, port.total_market_value)):
-                if pid in dct and dct[pid] != own and not (dct[pid] != dct[pid] and own != own):
+                if pid in dct and pid != 'master' and dct[pid] != own and not (dct[pid] != dct[pid] and own != own):
                     raise Violation('account-level %s report lists %s with %r; that portfolio reports %r' % (what, pid, dct[pid], own))
         if len(self.txlog) != n_tx:
             raise Violation('read-only queries at %s filled %s' % (self.t, [(p, t.asset, t.quantity) for p, t in self.txlog[n_tx:]]))
@@ -854,8 +869,8 @@ class Harness(object):
             # every order: filled exactly once or still pending, never both, never twice
             queued = {}
             for pid in self.pids:
-                for o in b.open_orders[pid].queue:
-                    queued[o.order_id] = queued.get(o.order_id, 0) + 1
+                for oid in queue_ids(b, pid):
+                    queued[oid] = queued.get(oid, 0) + 1
             for oid, n in self.filled.items():
                 if n > self.nsub.get(oid, 0):
                     raise Violation('order %s was submitted %d time(s) and filled %d times' % (oid, self.nsub.get(oid, 0), n))
@@ -864,7 +879,7 @@ class Harness(object):
                     raise Violation('order %s was submitted %d time(s): %d fill(s) and %d still queued' % (
                         oid, n, self.filled.get(oid, 0), queued.get(oid, 0)))
             for pid in self.pids:
-                ql = [o.order_id for o in b.open_orders[pid].queue]
+                ql = queue_ids(b, pid)
                 if ql != [x[0] for x in self.pend[pid]]:
                     raise Violation('queue of %s holds %d orders, model has %d pending' % (
                         pid, len(ql), len(self.pend[pid])))
@@ -875,7 +890,7 @@ class Harness(object):
     def _inv_c01(self, op):
         b = self.b
         real_master = b.get_account_cash_balance(b.base_currency)
-        if abs(real_master - float(self.master)) > self._tol('master', self.master):
+        if abs(real_master - float(self.master)) > self._tol('#account', self.master):
             raise Violation('after %s: master cash %r, ledger says %r' % (op, real_master, float(self.master)))
         for ccy, bal in b.get_account_cash_balance().items():
             if ccy != b.base_currency and bal != 0.0:
@@ -909,7 +924,8 @@ class Harness(object):
             big = 1.0
             for pid in self.pids:
                 v = getter(pid)
-                if agg[pid] != v:
+                # (a portfolio that is itself called 'master' shares its key with the account total: the total it is)
+                if agg[pid] != v and pid != 'master':
                     raise Violation('account total %s entry for %s is %r, the portfolio reports %r' % (
                         name, pid, agg[pid], v))
                 tot += v
@@ -1123,9 +1139,10 @@ def make_machine(mode, rec, part):
             self._do(['awd', t])
 
         @precondition(lambda self: self.h is not None and len(self.h.pids) < 4)
-        @rule()
-        def create(self):
-            self._do(['create'])
+        @rule(name=st.sampled_from([None] * 5 + ['master']))
+        def create(self, name):
+            # (portfolio ids are free text: one may be called like the account-level total, 'master')
+            self._do(['create'] if name is None else ['create', name])
 
         @precondition(lambda self: self.h is not None and self.h.pids)
         @rule(p=st.integers(0, 3), t=take_st)
